@@ -143,7 +143,12 @@ class SyncedDict(SyncedCollection, MutableMapping):
                     else:
                         if new_value == existing:
                             continue
-                        if _sc_resolver.get_type(existing) == "SYNCEDCOLLECTION":
+                        # A nested collection's _update treats None as "no
+                        # change", so a None value must replace the collection.
+                        if (
+                            new_value is not None
+                            and _sc_resolver.get_type(existing) == "SYNCEDCOLLECTION"
+                        ):
                             try:
                                 existing._update(new_value)
                                 continue
